@@ -737,19 +737,26 @@ func routeHistory(id int, rng *rand.Rand, dir string) vO {
 		desc := describe(m)
 		externals = append(externals, desc)
 		// (a Process that does not come back within 3 s is left behind: the judge then misses the presentations)
+		base := runtime.NumGoroutine()
 		returned := make(chan bool, 1)
 		go func() { s.Process(ctx, m, nil); returned <- true }()
 		select {
 		case <-returned:
 		case <-time.After(3 * time.Second):
 		}
-		// wait until the asynchronous re-processing has gone quiet
-		for {
+		// wait until the asynchronous re-processing has gone quiet: nothing processed for a while AND the goroutines that
+		// Process started for the emitted messages are gone (on a busy machine one of them may not have been scheduled yet
+		// when the others have long finished); at most 3 s
+		quietSince := time.Now()
+		for waited := time.Now(); time.Since(waited) < 3*time.Second; {
 			time.Sleep(15 * time.Millisecond)
 			mu.Lock()
 			idle := time.Since(last)
 			mu.Unlock()
-			if idle > 60*time.Millisecond {
+			if runtime.NumGoroutine() > base {
+				quietSince = time.Now()
+			}
+			if idle > 60*time.Millisecond && time.Since(quietSince) > 30*time.Millisecond {
 				break
 			}
 		}
